@@ -1,0 +1,33 @@
+//go:build verif
+
+package core
+
+import "sync"
+
+// Points inside block processing at which the write cache holds an
+// intermediate state that the periodic persist routine of Run may flush.
+const (
+	// VerifPointHeaderAdded is reached in AddBlock after the block's header was
+	// put into the write cache and before the block itself is processed.
+	VerifPointHeaderAdded = 0
+	verifPointHeaderAdded = VerifPointHeaderAdded
+)
+
+var verifPointHooks sync.Map // *Blockchain -> func(point int)
+
+// VerifSetPointHook installs (or removes, with nil) a callback run at the
+// points above on the goroutine that processes the block. A harness uses it to
+// place a flush (VerifPersist) exactly where the 1s timer could fire.
+func (bc *Blockchain) VerifSetPointHook(f func(point int)) {
+	if f == nil {
+		verifPointHooks.Delete(bc)
+		return
+	}
+	verifPointHooks.Store(bc, f)
+}
+
+func (bc *Blockchain) verifPoint(p int) {
+	if f, ok := verifPointHooks.Load(bc); ok {
+		f.(func(int))(p)
+	}
+}
